@@ -193,8 +193,13 @@ def run_case(case, ctx):
         top = float(np.max(scl)) if scl.size and np.all(np.isfinite(scl)) else 1.0
         sc = np.maximum(scl, top * 1e-6)
         tol = 1e-7 if agg in ("std", "var", "ptp", "min", "max", "median") else 1e-9
+        # a vector that is non-finite on both sides (observer at a documented singular point, e.g. a Dipole's own
+        # position: +-inf, and nan once rotated) is equal for this property; finiteness itself is C15's subject
+        both_nonfinite = (np.any(~np.isfinite(got), axis=-1, keepdims=True) & np.any(~np.isfinite(ref), axis=-1, keepdims=True)) * np.ones(3, dtype=bool)
+        if np.any(both_nonfinite):
+            ctx.label("nonfinite_on_both_sides_skipped")
         with np.errstate(invalid="ignore"):
-            bad = ~(np.abs(got - ref) <= tol * sc) & ~(np.isnan(got) & np.isnan(ref))
+            bad = ~(np.abs(got - ref) <= tol * sc) & ~both_nonfinite
         if np.any(bad):
             # condition-aware allowance (see C06): what an 8-ulp displacement of the pixels does
             noise = np.zeros_like(ref)
@@ -208,7 +213,7 @@ def run_case(case, ctx):
                     except _Raised:
                         pass
             with np.errstate(invalid="ignore"):
-                bad = ~(np.abs(got - ref) <= tol * sc + 20.0 * noise) & ~(np.isnan(got) & np.isnan(ref))
+                bad = ~(np.abs(got - ref) <= tol * sc + 20.0 * noise) & ~both_nonfinite
             if not np.any(bad):
                 ctx.label("illconditioned_tolerated")
         if np.any(bad):
